@@ -18,8 +18,8 @@ import vf
 
 META = {
     "level": "model_checking",
-    "text": "TLC checks on small-byte models (3-bit bytes x 2..3-byte windows, 2-bit bytes x 3-byte "
-            "windows: every window content x every legal header spec x every accessor call incl. "
+    "text": "TLC checks on small-byte models (3-bit bytes x 2-byte window, 2-bit bytes x 2-byte "
+            "window; thorough adds 3-bit x 3 bytes, 2-bit x 4 bytes, 4-bit x 2 bytes: every window content x every legal header spec x every accessor call incl. "
             "masks) that the byte-level definition of the accessors changes only the field's bits "
             "and returns only the field's previous value, and rejects three broken variants. The "
             "real accessors are then run over all sub-byte specs of selected header bytes (all 32 "
@@ -145,6 +145,8 @@ def run(ctx):
                expect_violation=True, env=JVM_ENV)
     if not quick:
         mc(ctx, sd, "HeaderMeta.tla", "MC_HeaderMeta_deep.cfg", "Flip", timeout=1500)
+        mc(ctx, sd, "HeaderMeta.tla", "MC_HeaderMeta_deep2.cfg", "Flip", timeout=1500)
+        mc(ctx, sd, "HeaderMeta.tla", "MC_HeaderMeta_deep3.cfg", "Flip", timeout=1500)
         ctx.tlc_mc("HeaderMeta.tla", "MC_HeaderMeta_mutant_clobber.cfg", spec_dir=sd,
                    expect_violation=True, env=JVM_ENV)
         ctx.tlc_mc("HeaderMeta.tla", "MC_HeaderMeta_mutant_negoff.cfg", spec_dir=sd,
@@ -156,7 +158,7 @@ def run(ctx):
     if quick:
         args += ["--level", "0", "--hist", "100", "--hlen", "40", "--seqlen", "2"]
     else:
-        args += ["--level", "1", "--hist", "1500", "--hlen", "60", "--seqlen", "3"]
+        args += ["--level", "1", "--hist", "2000", "--hlen", "60", "--seqlen", "3"]
     rc, o = ctx.run(args, timeout=900)
     if rc != 0:
         # the driver catches panics of the accessors; anything else is a crash of the code under
@@ -174,6 +176,22 @@ def run(ctx):
         validate(ctx, sd, p, "trace_hm_%d" % i)
     if not quick:
         binding_demo(ctx, sd, parts[0])
+        # the same accessors compiled without debug assertions (release profile)
+        exe_rel = ctx.build("d_header", release=True)
+        out_rel = os.path.join(ctx.work, "header_rel.ndjson")
+        rc, o = ctx.run([exe_rel, "header", "--out", out_rel, "--level", "0", "--hist", "300",
+                         "--hlen", "60", "--seqlen", "2"], timeout=900)
+        if rc != 0:
+            if rc < 0 and rc != -9:
+                ctx.violation("header:driver-killed:release", "release driver terminated by "
+                              "signal %d while calling the accessors: %s" % (-rc, o[-500:]))
+                return
+            raise vf.ToolError("d_header header (release) failed: rc=%s\n%s" % (rc, o[-2000:]))
+        rel = dict(re.findall(r"(\w+)=(\d+)", o))
+        rows += int(rel.get("rows", 0))
+        ctx.cov["driver_release"] = {k: int(v) for k, v in rel.items()}
+        for i, p in enumerate(split_at_pre(out_rel, 40000, ctx.work, "hmrel")):
+            validate(ctx, sd, p, "trace_hmrel_%d" % i)
     ctx.cov["rows"] = rows
     ctx.cov["driver"] = {k: int(v) for k, v in stats.items()}
     ctx.cov["exhaustive"] = True
@@ -185,9 +203,10 @@ def run(ctx):
         "(quick: random + one other) x {load, load_atomic, store, store_atomic, compare_exchange "
         "(expected = current / other), fetch_add/sub/and/or, fetch_update with 4 closure kinds} x "
         "value classes {0,1,max,alternating,random} x masks {none, all-but-low-2-bits, random%s}; "
-        "seq = all sequences of %d calls out of 40 over three fields sharing a byte and the byte "
-        "itself; hist = random histories on a persistent window"
-        % ("3" if quick else "all 32", "" if quick else ", all-ones, 0x0f..", 2 if quick else 3))
+        "seq = all sequences of 2 calls out of 40 (10 per field) over three fields sharing a byte "
+        "and the byte itself%s; hist = random histories on a persistent window"
+        % ("3" if quick else "all 32", "" if quick else ", all-ones, 0x0f..",
+           "" if quick else ", and all sequences of 3 calls out of 20"))
     ctx.assumptions.append("single-threaded calls with SeqCst orderings; values fit the field; "
                            "compare_exchange arguments lie inside the mask")
     ctx.assumptions.append("field-equal arguments ('expected = current') are obtained with the "
